@@ -324,6 +324,8 @@ pub fn states(ck: CK, thorough: bool) -> Vec<&'static str> {
             let mut v = vec!["fresh", "creator-handover", "info-frozen"];
             if k.has_ownership_msg() {
                 v.extend(["ownership-pending", "ownership-accepted", "ownership-renounced", "ownership-pending-expired"]);
+                // the deadline guard at its boundary: 1 ns before / at the time, one block before / at the height
+                v.extend(["ownership-pending-before-deadline", "ownership-pending-height", "ownership-pending-height-expired"]);
             }
             if k == CollKind::Updatable {
                 v.extend(["metadata-frozen", "updatable-disabled"]);
@@ -690,6 +692,22 @@ fn coll_world(kind: CollKind, state: &str) -> Result<World, String> {
             chain::set_time(&mut w.app, now + 50 * S);
             // the offer has lapsed: nobody can accept it any more
             w.principals.insert(P::CollPendingMinter, vec![]);
+        }
+        "ownership-pending-before-deadline" => {
+            w.must("transfer ownership", &minter, &coll, &transfer(json!({"at_time": (now + 50 * S).to_string()})), 0)?;
+            chain::set_time(&mut w.app, now + 50 * S - 1);
+            w.principals.insert(P::CollPendingMinter, vec![minter2.clone()]);
+        }
+        "ownership-pending-height" | "ownership-pending-height-expired" => {
+            let h = w.app.block_info().height;
+            w.must("transfer ownership", &minter, &coll, &transfer(json!({"at_height": h + 2})), 0)?;
+            chain::set_time(&mut w.app, now + S); // height h+1: one block before the deadline
+            if state == "ownership-pending-height-expired" {
+                chain::set_time(&mut w.app, now + 2 * S); // height h+2: lapsed
+                w.principals.insert(P::CollPendingMinter, vec![]);
+            } else {
+                w.principals.insert(P::CollPendingMinter, vec![minter2.clone()]);
+            }
         }
         "ownership-accepted" => {
             w.must("transfer ownership", &minter, &coll, &transfer(Value::Null), 0)?;
